@@ -128,6 +128,8 @@ func (dp *DPoVP) MineBlock(txProcessTimeout int64) (*types.Block, error) {
 	}
 
 	txs := dp.txPool.GetTxs(header.Time, params.MaxTxsForMiner)
+	// The pool may hold transactions which are on the current fork already (e.g. they came back from a block on another fork). They must not be packaged again
+	txs = dp.removeExistTxs(parentHeader.Hash(), txs)
 	block, invalidTxs, err := dp.assembler.MineBlock(header, txs, txProcessTimeout)
 	if err != nil {
 		if err == deputynode.ErrNoStableTerm {
@@ -146,6 +148,23 @@ func (dp *DPoVP) MineBlock(txProcessTimeout int64) (*types.Block, error) {
 		return nil, err
 	}
 	return block, nil
+}
+
+// removeExistTxs drops the transactions which have appeared on the fork of the parent block, and removes them from tx pool
+func (dp *DPoVP) removeExistTxs(parentHash common.Hash, txs types.Transactions) types.Transactions {
+	result := make(types.Transactions, 0, len(txs))
+	existTxs := make(types.Transactions, 0)
+	for _, tx := range txs {
+		if dp.txGuard.ExistTx(parentHash, tx) {
+			existTxs = append(existTxs, tx)
+		} else {
+			result = append(result, tx)
+		}
+	}
+	if len(existTxs) > 0 {
+		dp.txPool.DelTxs(existTxs)
+	}
+	return result
 }
 
 func (dp *DPoVP) InsertBlock(rawBlock *types.Block) (*types.Block, error) {
